@@ -13,10 +13,30 @@
 #include <stdio.h>
 #include <girepository.h>
 
+/* a name as one token: a typelib that indexes its field blobs wrongly hands back arbitrary bytes */
+static const char *
+token (const char *name)
+{
+  static char buf[4][80];
+  static int which;
+  char *out = buf[which = (which + 1) % 4];
+  int i;
+
+  if (name == NULL || *name == 0)
+    return "?";
+  for (i = 0; i < 64 && name[i]; i++)
+    {
+      unsigned char c = (unsigned char) name[i];
+      out[i] = ((c >= '0' && c <= '9') || (c >= 'A' && c <= 'Z') || (c >= 'a' && c <= 'z') || c == '_' || c == '-') ? (char) c : '?';
+    }
+  out[i] = 0;
+  return out;
+}
+
 static void
 dump_field (GIFieldInfo *f)
 {
-  printf ("F %s %d %d\n", g_base_info_get_name ((GIBaseInfo *) f),
+  printf ("F %s %d %d\n", token (g_base_info_get_name ((GIBaseInfo *) f)),
           g_field_info_get_offset (f), g_field_info_get_size (f));
   g_base_info_unref ((GIBaseInfo *) f);
 }
@@ -48,7 +68,7 @@ main (int argc, char **argv)
       for (i = 0; i < n; i++)
         {
           GIBaseInfo *info = g_irepository_get_info (repo, ns, i);
-          const char *name = g_base_info_get_name (info);
+          const char *name = token (g_base_info_get_name (info));
 
           switch (g_base_info_get_type (info))
             {
